@@ -151,6 +151,21 @@ func main() {
 			break
 		}
 	}
+	// ---- a decoy first: the named scalar types the units use (Kind int32, Label string), declared the OTHER way round, are
+	// generated before anything else in this process.  What the generator emits for a declaration set must not depend on
+	// what the process generated earlier (no name-keyed state may survive from one set to the next).
+	func() {
+		defer func() { _ = recover() }()
+		if os.Getenv("GENRUN_NODECOY") != "" {
+			return
+		}
+		ddir := filepath.Join(base, "udecoy")
+		must(os.MkdirAll(ddir, 0755))
+		must(os.WriteFile(filepath.Join(ddir, "decl.go"), []byte("package udecoy\n\ntype Kind string\n\ntype Label int32\n\ntype Decoy struct {\n\tK Kind\n\tL Label\n\tM map[Kind]Label\n\tN map[Label]Kind\n\tS []Kind\n}\n"), 0644))
+		_ = compile(&inspector.Config{Target: inspector.TargetFile, File: filepath.Join(ddir, "decl.go"), Import: "gen/udecoy", Destination: filepath.Join(base, "udecoy_ins")})
+		_ = os.RemoveAll(ddir)
+		_ = os.RemoveAll(filepath.Join(base, "udecoy_ins"))
+	}()
 	// ---- generate (sequentially: the generator keeps package-level counters)
 	for ui, u := range units {
 		dir := filepath.Join(base, u.pkg)
@@ -221,6 +236,10 @@ func main() {
 				return
 			}
 			// second run and the other targets, for C13
+			u.obs["srchash"] = normHash(out)
+			if os.Getenv("GENRUN_HASHONLY") != "" {
+				return
+			}
 			det, tgt := "ok", "ok"
 			if err := compile(fconf(u.pkg + "_ins2")); err != nil || !sameUpToNumbering(out, readDir(filepath.Join(base, u.pkg+"_ins2"))) {
 				det = "no"
@@ -351,13 +370,28 @@ func main() {
 			}
 		}
 		var parts []string
-		for _, k := range []string{"gen", "files", "fmt", "build", "iface", "xmlast", "xmlpkg", "det", "tgt"} {
+		for _, k := range []string{"gen", "files", "fmt", "build", "iface", "xmlast", "xmlpkg", "det", "tgt", "srchash"} {
 			if v, ok := u.obs[k]; ok {
 				parts = append(parts, k+"="+v)
 			}
 		}
 		fmt.Fprintf(out, "%s\t%s\n", u.id, strings.Join(parts, ";"))
 	}
+}
+
+// normHash: a hash of the generated sources with the numbering of generated local identifiers normalised
+func normHash(m map[string][]byte) string {
+	var names []string
+	for n := range m {
+		names = append(names, n)
+	}
+	sort.Strings(names)
+	var b bytes.Buffer
+	for _, n := range names {
+		b.WriteString(n + "\n")
+		b.Write(reNum.ReplaceAll(m[n], []byte("$1#")))
+	}
+	return hashText(b.Bytes())
 }
 
 func sameBytes(a, b map[string][]byte) bool {
